@@ -48,7 +48,8 @@ def infrastructure_constraints_feasible(
                 return False
     else:
         for j, v in enumerate(infrastructure.constraint_matrix):
-            line_currents = np.linalg.norm(np.abs(v) @ rates, axis=0)
+            # One aggregate per period (not a norm across periods).
+            line_currents = np.abs(np.abs(v) @ rates)
             if not np.all(
                 line_currents <= infrastructure.constraint_limits[j] + tol[j]
             ):
